@@ -3,7 +3,8 @@
 set -e
 cd "$(dirname "$0")"
 export GOFLAGS=-mod=mod GOPROXY=off GOSUMDB=off GOTOOLCHAIN=local
-(cd lean && lake build PgsVerif driver)
+# first the harness and the translator (no Lean needed): the generated Lean files must say what /repo says
+# NOW before anything that imports them is built
 python3 - <<'P'
 import sys, os
 sys.argv = ["check"]
@@ -18,5 +19,6 @@ if b is None:
 ok, out = m.run_factgen(b)
 print("harness:", b, "factgen:", ok, out[-300:])
 P
-(cd lean && lake build PgsVerif driver)
+# the whole library (all theorems); if a tie theorem does not build on this tree the driver is still needed
+(cd lean && (lake build PgsVerif driver || lake build driver))
 echo setup done
